@@ -148,6 +148,59 @@ def work(chunk, st):
         explore_case(case, st)
 
 
+# ---- line-level interleavings of the rating-table life cycle (get_db / in-place edit / read / thread_exit)
+def work_lines(chunk, st):
+    from mc import linesched, runner
+    for dbname, nthreads, bound in chunk:
+        DB = runner.M[dbname].SSH2_KexDB if dbname == 'ssh2_kexdb' else runner.M[dbname].SSH1_KexDB
+        cat, alg = ('enc', 'aes256-ctr') if dbname == 'ssh2_kexdb' else ('enc', '3des')
+
+        def make():
+            runner.reset_state()
+
+            def body(i):
+                def f():
+                    db = DB.get_db()
+                    db[cat][alg].append(['edit-by-%d' % i])       # what a scan does: annotate its private copy in place
+                    seen = DB.get_db()[cat][alg][-1]
+                    again = DB.get_db() is db
+                    DB.thread_exit()
+                    return seen, again
+                return f
+            return [body(i) for i in range(nthreads)]
+        master_before = repr(DB.MASTER_DB)
+
+        def check(results, errors, trace):
+            probs = []
+            for i, (r, e) in enumerate(zip(results, errors)):
+                if e is not None:
+                    probs.append('thread %d raised %r' % (i, e))
+                elif r != (['edit-by-%d' % i], True):
+                    probs.append('thread %d read %r instead of its own edit' % (i, r))
+            if DB.DB_PER_THREAD:
+                probs.append('per-thread copies left behind: %d' % len(DB.DB_PER_THREAD))
+            if repr(DB.MASTER_DB) != master_before:
+                probs.append('master table modified')
+            return probs
+        n = 0
+        for prefix, probs, points, trace in linesched.explore(make, (dbname + '.py',), bound, check):
+            n += 1
+            st.evaluations += 1
+            st.transitions += len(points)
+            hv = hash(('lines', dbname, nthreads))
+            for (tid, fn, ln) in trace:
+                hv = hash((hv, tid, fn, ln))
+                st.states.add(hv)
+            st.nontrivial.add(hash(('lines', dbname, nthreads, tuple(prefix))))
+            st.outcomes[('line-level', dbname, nthreads, bool(probs))] += 1
+            for p in probs:
+                import re as _re
+                st.violation('line-level:%s:%s' % (dbname, _re.sub(r'\d{5,}', 'N', p.split(' ', 2)[2][:50] if p.startswith('thread') else p[:40])),
+                             {'table': dbname, 'threads': nthreads, 'schedule': list(prefix), 'what': p, 'trace_tail': [list(t) for t in trace[-12:]]})
+        st.extra['line_level_schedules'] += n
+        st.sample({'line_level': dbname, 'threads': nthreads, 'preemption_bound': bound, 'schedules': n}, cap=16)
+
+
 def cases(tier):
     out = []
     conn = ('connect',)
@@ -198,6 +251,8 @@ def run(tier, seed):
     t0 = time.time()
     cs = cases(tier)
     st = par.pmap(work, cs, chunk=4 if tier == 'quick' else 2)
+    lines = [('ssh2_kexdb', 2, 2), ('ssh1_kexdb', 2, 2)] if tier == 'quick' else [('ssh2_kexdb', 2, 3), ('ssh1_kexdb', 2, 3), ('ssh2_kexdb', 3, 2), ('ssh1_kexdb', 3, 2)]
+    par.pmap(work_lines, lines, stats=st, chunk=1)
     pairs = H.pick(list(itertools.product(ARCHS, ARCHS)), seed, 5 if tier == 'quick' else 30)
     mcases = []
     for i, (a, b) in enumerate(pairs):
@@ -208,7 +263,8 @@ def run(tier, seed):
         PID, tier, seed, st, t0,
         rule='ordered pairs (quick) / pairs and triples (thorough) of %d healthy archetypes (one per channel through which a scan edits '
              'rating state) as -T files x --threads x {text,-j,-P}; for each, DFS over gate schedules of connection events with a '
-             'preemption bound (quick 1, fine-grained 2; thorough 2-3); non-trivial = distinct (targets, threads, completion order, '
+             'preemption bound (quick 1, fine-grained 2; thorough 2-3); plus line-level interleavings (every source line of get_db/thread_exit is a '
+             'scheduling point) of 2-3 threads running the rating-table life cycle, preemption bound 2-3; non-trivial = distinct (targets, threads, completion order, '
              'item-to-thread assignment)' % len(ARCHS),
         assumptions=['thread switches only at virtual I/O gates (resolve/connect/recv), see DESIGN 2.4b',
                      'reference = fresh single-target invocation in the same virtual environment'],
